@@ -47,6 +47,98 @@ def shard_eval(ctx, name, head, cases, expr, nshards):
     return sorted(res), None
 
 
+# ---------------------------------------------------------------- literal-only expressions inside programs
+NUM_OPS = ["OAdd", "OSub", "OMul", "ODiv", "OMod", "OLt", "OGt", "OLe", "OGe", "OEq", "ONe"]
+SPECIAL = [0, 1, -1, -2, 2, 3, 7, -7, 2 ** 61 - 1, 2 ** 61 + 10, 11, 2 ** 64 + 1, -(2 ** 90), 10 ** 30]
+
+
+def literal_program(rng):
+    """a surface program (tools/surface.py dict form) full of literal-only sub-expressions of all nestings, next to inputs"""
+    n = [0]
+
+    def fresh(p="v"):
+        n[0] += 1
+        return f"{p}{n[0]}"
+    stmts, lits, bools, others = [], [], [], []       # lits: (var, base) literal-only numeric; bools: literal-only booleans
+    base = rng.choice(["Int", "Int", "UInt"])
+    vals = SPECIAL if base == "Int" else [v for v in SPECIAL if v >= 0]
+    for _ in range(rng.choice([2, 3, 5])):
+        x = fresh()
+        stmts.append({"k": "lit", "x": x, "b": base, "v": rng.choice(vals)})
+        lits.append(x)
+    for _ in range(rng.choice([1, 2])):
+        x, name = fresh(), fresh("in")
+        stmts.append({"k": "input", "x": x, "name": name, "party": "P0", "doc": "", "t": ("s", rng.choice(["Public", "Secret"]), base)})
+        others.append(x)
+    for _ in range(rng.choice([3, 6, 10])):
+        k = rng.random()
+        x = fresh()
+        if k < 0.55:
+            o = rng.choice(NUM_OPS if base == "Int" else [q for q in NUM_OPS if q != "OSub"])
+            a, b = rng.choice(lits), rng.choice(lits)
+            stmts.append({"k": "bin", "x": x, "op": o, "a": a, "b": b})
+            (bools if o in ("OLt", "OGt", "OLe", "OGe", "OEq", "ONe") else lits).append(x)
+        elif k < 0.65 and bools:
+            stmts.append({"k": "not", "x": x, "a": rng.choice(bools)})
+            bools.append(x)
+        elif k < 0.75 and len(bools) >= 2:
+            stmts.append({"k": "bin", "x": x, "op": rng.choice(["OAnd", "OOr", "OXor", "OEq"]), "a": rng.choice(bools), "b": rng.choice(bools)})
+            bools.append(x)
+        elif k < 0.85:
+            stmts.append({"k": "radd", "x": x, "n": rng.choice([0, 1, 5]), "a": rng.choice(lits)})
+            lits.append(x)
+        else:
+            stmts.append({"k": "bin", "x": x, "op": rng.choice(["OAdd", "OMul"]), "a": rng.choice(others), "b": rng.choice(lits)})
+            others.append(x)
+    pool = lits + bools + others
+    outs = []
+    for i in range(rng.choice([2, 3, 4])):
+        outs.append((f"out{i}", "P0", rng.choice(lits + bools) if rng.random() < 0.75 else rng.choice(pool)))
+    return {"stmts": stmts, "outs": outs, "tags": [], "dead": False}
+
+
+def programs_part(ctx, ok_x):
+    import random
+    import surface
+    import progrun
+    import mirprint
+    rng = random.Random(ctx.seed + 6)
+    n = 80 if ctx.tier == "quick" else 1500
+    progs = [literal_program(rng) for _ in range(n)]
+    # two fixed programs: literal values whose Python hashes collide, and the same value under two literal types
+    progs.append({"stmts": [{"k": "lit", "x": "a", "b": "Int", "v": 1}, {"k": "lit", "x": "b", "b": "Int", "v": 2}, {"k": "lit", "x": "c", "b": "Int", "v": 4},
+                            {"k": "bin", "x": "m1", "op": "OSub", "a": "a", "b": "b"}, {"k": "bin", "x": "m2", "op": "OSub", "a": "b", "b": "c"},
+                            {"k": "lit", "x": "z", "b": "Int", "v": 0}, {"k": "lit", "x": "h", "b": "Int", "v": 2 ** 61 - 1},
+                            {"k": "bin", "x": "n", "op": "OSub", "a": "z", "b": "c"}],
+                  "outs": [("o1", "P0", "m1"), ("o2", "P0", "m2"), ("o3", "P0", "z"), ("o4", "P0", "h"), ("o5", "P0", "n")], "tags": [], "dead": False})
+    results = progrun.run_impl(progs)
+    exprs = ["(fun cs => indices_where (fun c : program * ioutcome => match snd c with IOk m => negb (c06_progb (fst c) m) | _ => false end) cs 0%Z)"]
+    if ok_x:
+        exprs.append("(fun cs => indices_where (fun c : program * ioutcome => negb (outcome_agrees (run GenScalar.G (fst c)) (snd c))) cs 0%Z)")
+    out, errors = progrun.eval_over_cases(ctx, "c06_prog", "From NadaV.Gen Require GenScalar.\nFrom NadaV.Spec Require Import FoldSpec FoldProgSpec.\n",
+                                          progs, results, exprs)
+    if errors:
+        raise RuntimeError("cases c06_prog failed: " + errors[0][1])
+    bad = out[exprs[0]]
+    nacc = sum(1 for r in results if "ok" in r)
+    ctx.note(f"validate: {len(progs)} programs with nested literal-only sub-expressions ({nacc} accepted): outputs that are literal-only must reference "
+             f"a literal-table entry holding the exact value (Spec/FoldProgSpec.c06_progb, in Coq): {len(bad)} violating")
+    for i in bad[:3]:
+        m = results[i]["ok"]
+        vlib.report_failure(ctx, "C06/program:literal-table", "a literal-only output does not reference a literal entry with the exact value",
+                            dict(case=dict(kind="program", python_source=surface.to_python(progs[i])),
+                                 observed=dict(literals=m["literals"], outputs=m["outputs"],
+                                               operations={k: v for k, v in list(m["operations"].items())[:12]})))
+    if ok_x:
+        dis = out[exprs[1]]
+        ctx.note(f"tie: trace/compile model vs implementation on these {len(progs)} programs: {len(dis)} disagree")
+        if dis:
+            ctx.broken.append(dict(kind="correspondence", what="model and implementation disagree on a literal program",
+                                   detail=surface.to_python(progs[dis[0]])))
+    ctx.cov["literal_programs"] = len(progs)
+    ctx.cov["literal_programs_accepted"] = nacc
+
+
 def run(ctx):
     ok_x = vlib.step_extract(ctx)
     ok_p = vlib.step_prove(ctx) if ok_x else False
@@ -94,6 +186,7 @@ def run(ctx):
             if mism:
                 ctx.broken.append(dict(kind="correspondence", what="model and implementation disagree on folded values",
                                        detail=json.dumps([[str(v) for v in outs[i][:3]] for i in mism[:5]])))
+    programs_part(ctx, ok_x)
     bits = lambda v: abs(v).bit_length()
     ctx.cov.update(
         evaluations=nevals,
